@@ -84,6 +84,20 @@ func gen(tier string) []proto.Item {
 			items = append(items, proto.Item{Scn: s, Class: fmt.Sprintf("%s/neighbouring-flows-reply-first/ttl%d", v, t)})
 		}
 	}
+	// one probe, two fates: a copy of the probe with TTL d reaches the destination (its answer comes first), another copy
+	// expires at the router before it, whose time-exceeded for the same probe arrives later: the hop keeps the first
+	// accepted reply and its round-trip time
+	for _, v := range proto.Variants {
+		vi := proto.Info(v)
+		if !vi.Parallel {
+			continue
+		}
+		for _, d := range []int{3, 4} {
+			s := proto.Scn{Variant: v, First: 1, Last: 5, Dest: d, IPIDBase: 500, EchoBase: 41, TimeoutMs: 300, DelayMs: 10}
+			s.Inject = []proto.Inject{{OnTTL: d, AnswerTTL: d, Form: vi.TEForm, From: proto.Router(vi.V6, 0, d).String(), DelayUs: proto.DefaultDelayUs(d) + 30000, Tag: "router-after-destination", Genuine: true}}
+			items = append(items, proto.Item{Scn: s, Class: fmt.Sprintf("%s/router-reply-after-the-destinations-for-one-ttl/d%d", v, d)})
+		}
+	}
 	// the wall clock is stepped (an hour forward, an hour back) while replies are outstanding - NTP, `date -s`, a resumed
 	// VM -; the monotonic clock runs on: round-trip times are elapsed times and do not move
 	for _, v := range proto.Variants {
@@ -166,7 +180,7 @@ var F = &proto.Family{ID: "C05", Gen: gen, Check: check, OutcomeKey: func(r *pro
 func genE2e(tier string) []proto.RTItem {
 	var items []proto.RTItem
 	for _, pr := range []struct{ p, m, h string }{{"icmp", "", "203.0.113.77"}, {"tcp", "syn", "203.0.113.77"}, {"udp", "", "203.0.113.77"}, {"icmp", "", "2001:db8::77"}, {"udp", "", "2001:db8::77"}} {
-		for _, world := range []string{"destination-answers", "time-exceeded-from-the-target-address", "silence", "unreachable-from-a-router-in-front"} {
+		for _, world := range []string{"destination-answers", "time-exceeded-from-the-target-address", "silence", "unreachable-from-a-router-in-front", "destination-answers-then-a-router-for-the-same-probe"} {
 			r := proto.RTScn{Hostname: pr.h, Protocol: pr.p, Method: pr.m, MinTTL: 1, MaxTTL: 4, DelayMs: 10, TimeoutMs: 100, Queries: 1, E2e: 2, Dest: 3, IPIDBase: 500, EchoBase: 41, WantV6: strings.Contains(pr.h, ":")}
 			te := "te28"
 			if r.WantV6 {
@@ -177,6 +191,10 @@ func genE2e(tier string) []proto.RTItem {
 				r.Hops = map[int]proto.HopSpec{4: {Form: te, AtTarget: true}}
 			case "silence":
 				r.Hops = map[int]proto.HopSpec{4: {Silent: true}}
+			case "destination-answers-then-a-router-for-the-same-probe":
+				// one probe, two fates: a copy reaches the destination, whose answer comes first; another copy expires at the
+				// router before it, whose time-exceeded for the same probe comes 30 ms later: the destination has answered
+				r.Inject = []proto.Inject{{OnTTL: 4, AnswerTTL: 4, Form: te, From: proto.Router(r.WantV6, 0, 3).String(), DelayUs: proto.DefaultDelayUs(4) + 30000, Tag: "router-after-destination", Genuine: true}}
 			case "unreachable-from-a-router-in-front":
 				// the destination never answers; the router in front of it reports host unreachable / administratively
 				// prohibited, quoting the probe: no answer from the destination, the sample is 0
@@ -203,7 +221,7 @@ var E2E = &proto.RTFamily{ID: "C05", Gen: genE2e, Check: func(it *proto.RTItem, 
 	// does the reply the target gives to the probe with TTL = MaxTTL prove arrival for this protocol?
 	proves := false
 	switch it.Note["world"] {
-	case "destination-answers":
+	case "destination-answers", "destination-answers-then-a-router-for-the-same-probe":
 		proves = true
 	case "time-exceeded-from-the-target-address":
 		proves = it.Scn.Protocol == "udp" // any matched ICMP error from the target proves arrival for UDP only
